@@ -92,7 +92,8 @@ var c23Muts = []string{"none", "none", "none", "none", "none", "none", "none", "
 	"reorder-acct", "reorder-stor", "extra-acct", "extra-stor", "extra-junk", "addr-upper",
 	"missing-acct", "missing-stor", "other-account-nodes", "other-account", "other-slot-nodes", "other-slot-key", "absent-slot",
 	"wrong-address", "nonce", "balance", "storagehash", "codehash", "message", "message-field", "malformed", "two-storage-proofs", "no-storage-proof",
-	"node-bitflip", "short-suffix", "short-suffix", "short-suffix", "long-suffix", "hash-prefix", "empty-value"}
+	"node-bitflip", "short-suffix", "short-suffix", "short-suffix", "long-suffix", "hash-prefix", "empty-value",
+	"splice-storage", "splice-storage", "splice-storage"}
 
 var c23ShortLens = []int{1, 2, 3, 8, 16, 20, 31}
 
@@ -473,6 +474,7 @@ func runC23(ctx *ev.Ctx, c c23Case) {
 		return string(b)
 	}
 	var raw []byte
+	spliced := false
 	switch c.Mut {
 	case "none":
 	case "reorder-acct":
@@ -520,6 +522,30 @@ func runC23(ctx *ev.Ctx, c c23Case) {
 		}
 		effSlot = mod(c.Target+1+mod(c.MutA, c.NSlots-1), c.NSlots)
 		p = stA.honestProof(ccmc, stA.ccmcAcct, effSlot)
+	case "splice-storage":
+		// genuine account proof and genuine nonce / balance / code hash of the registered contract, but the
+		// storage hash and a self-consistent storage proof come from ANOTHER storage trie in which
+		// keccak(submitted message) sits at the slot; the message is the deposited one or (odd MutA) one that
+		// was never deposited. The claimed storage root is not the one of the account proven under the block's
+		// state root, so the account condition fails.
+		if c.MutA%2 == 1 {
+			m2 := *msg
+			m2.CCID = append(append([]byte(nil), msg.CCID...), 0x5a)
+			submitted = m2.encode()
+		}
+		t2, _ := trie.New(ecommon.Hash{}, trie.NewDatabase(memorydb.New()))
+		for i := 0; i < 1+mod(c.MutA, 5); i++ {
+			enc, _ := rlp.EncodeToBytes(crypto.Keccak256([]byte{byte(i), 0x77}))
+			t2.Update(crypto.Keccak256([]byte(fmt.Sprintf("splice-filler-%d", i))), enc)
+		}
+		sh := crypto.Keccak256(submitted)
+		enc, _ := rlp.EncodeToBytes(bytes.TrimLeft(sh, "\x00"))
+		sk := stA.slotKeys[c.Target]
+		t2.Update(crypto.Keccak256(sk.Bytes()), enc)
+		p.StorageHash = t2.Hash().Hex()
+		p.StorageProofs = []c23SProof{{Key: sk.Hex(), Value: "0x" + hex.EncodeToString(sh), Proof: nodesOf(t2, crypto.Keccak256(sk.Bytes()))}}
+		proofOK = false
+		spliced = true
 	case "short-suffix": // genuine proof of a slot holding only the last n bytes of keccak(message)
 		i := mod(c.MutA, len(c23ShortLens))
 		effSlot = nbShort + i
@@ -587,6 +613,9 @@ func runC23(ctx *ev.Ctx, c c23Case) {
 	}
 	// the storageProof[0].value member is informational (not proven); vary it
 	valueOK := len(stA.slotVals[effSlot]) <= 32 && bytes.Equal(leftPad32(stA.slotVals[effSlot]), crypto.Keccak256(submitted))
+	if spliced {
+		valueOK = true // holds under the CLAIMED storage root; the account condition is what fails
+	}
 
 	// --- tracked chain ---------------------------------------------------------------------------
 	chainOK := true
@@ -795,7 +824,7 @@ func TestC23Eth(t *testing.T) {
 	ev.Get(id).Extra("routers_unit", "pccm.TestC23Eth: eth, quorum (the routers sharing cross_chain_manager/eth/utils.go)")
 	ev.Drive(t, id,
 		"ETH/Quorum unit: one deposit import per case on a fresh main-net world; synthetic go-ethereum state (registered CCMC account + 1..9 other accounts, 1..6 storage slots), "+
-			"trie.Prove proofs with ONE mutation (re-ordered/extra/missing/bit-flipped nodes, nodes or complete proof of another account, of another slot, of a neighbour slot whose value is only related to the hash (last 1/2/3/8/16/20/31 bytes, 0x01||hash, first 16 bytes + zero tail, empty), absence proof, wrong address, "+
+			"trie.Prove proofs with ONE mutation (re-ordered/extra/missing/bit-flipped nodes, nodes or complete proof of another account, of another slot, storage hash + storage proof spliced in from another storage trie (genuine account proof and fields), of a neighbour slot whose value is only related to the hash (last 1/2/3/8/16/20/31 bytes, 0x01||hash, first 16 bytes + zero tail, empty), absence proof, wrong address, "+
 			"upper-case address, altered nonce/balance/storage hash/code hash, altered message, malformed JSON, 0 or 2 storage proofs); target slot value classes: genuine, hash with leading "+
 			"zero byte (stored trimmed / untrimmed; message ground), proper suffix of the hash (1..31 bytes), fixed short flag value with the message ground so that its hash ends with it, prefix, "+
 			"empty, >32 bytes, other/bit-flipped/zero word; eth: tracked chain of 1..6 blocks (BlocksToWait 1..4, heights around the confirmation boundary, below the trust root, above the tip, "+
